@@ -372,6 +372,8 @@ func (F *bfn) defFacts(z *zone, site ssa.Instruction) {
 						sep := F.rep(x.Call.Args[1])
 						if str, ok := constStr(sep); ok {
 							k = int64(len(str))
+						} else if str, ok := F.c.sepBytes(sep); ok {
+							k = int64(len(str))
 						}
 					}
 					// r <= len - 1 always (r is -1 or a position); r <= len - k
@@ -551,6 +553,25 @@ func (F *bfn) defFacts(z *zone, site ssa.Instruction) {
 						r, lhs := F.linear(x), F.linear(x.X)
 						if !r.neg && !lhs.neg {
 							z.add(r.a, lhs.a, lhs.k-r.k)
+						}
+					}
+				}
+				if x.Op == token.SUB {
+					// x - y <= x for y >= 0 (lengths and sums of lengths), when
+					// the difference is not itself a linear form of one atom
+					if bt, ok := x.Type().Underlying().(*types.Basic); ok && bt.Info()&types.IsInteger != 0 && bt.Info()&types.IsUnsigned == 0 && F.structNonNeg(x.Y, 0) {
+						if _, isConst := constInt(F.rep(x.Y)); !isConst {
+							r, lhs := F.linear(x), F.linear(x.X)
+							switch {
+							case r.neg:
+							case !lhs.neg:
+								if lhs.a != r.a {
+									z.add(r.a, lhs.a, lhs.k-r.k)
+								}
+							case strings.HasPrefix(string(lhs.a), "u:") || z.le("0", lhs.a, 0):
+								// lhs = k - a with a >= 0, so lhs <= k
+								z.add(r.a, "0", lhs.k-r.k)
+							}
 						}
 					}
 				}
@@ -902,6 +923,18 @@ func (F *bfn) kills(in ssa.Instruction, key string) bool {
 			}
 			return false
 		}
+		if strings.HasPrefix(key, "F(") {
+			// a field reached through a pointer: a statically known module
+			// function writes it only if it (or what it calls) stores to that
+			// field of that struct type
+			if i := strings.LastIndex(key, "#"); i >= 0 {
+				if cal := s.Call.StaticCallee(); cal != nil && len(cal.Blocks) > 0 && F.c.inRuleScope(cal) {
+					if !F.c.mayWriteField(cal, key[i:], map[*ssa.Function]bool{}) {
+						return false
+					}
+				}
+			}
+		}
 		if strings.HasPrefix(key, "A(") {
 			// a local is killed only if its address is passed or captured by a called closure
 			for _, a := range s.Call.Args {
@@ -923,6 +956,81 @@ func (F *bfn) kills(in ssa.Instruction, key string) bool {
 		return !strings.HasPrefix(key, "A(")
 	}
 	return false
+}
+
+// mayWriteField: f, or something it may call, stores to the field named by
+// suffix ("#<struct type>.<index>"). Calls that are not statically resolved
+// to a module function with a body count as writers.
+func (c *Ctx) mayWriteField(f *ssa.Function, suffix string, seen map[*ssa.Function]bool) bool {
+	if seen[f] {
+		return false
+	}
+	top := len(seen) == 0 // only a complete exploration is remembered
+	seen[f] = true
+	key := "maywrite:" + f.String() + suffix
+	if v, ok := c.memo[key]; ok {
+		return v.(bool)
+	}
+	res := false
+	for _, b := range f.Blocks {
+		for _, in := range b.Instrs {
+			switch x := in.(type) {
+			case *ssa.Store:
+				if fa, ok := x.Addr.(*ssa.FieldAddr); ok && fmt.Sprintf("#%s.%d", fa.X.Type().String(), fa.Field) == suffix {
+					res = true
+				}
+			case ssa.CallInstruction:
+				com := x.Common()
+				n := calleeQ(com)
+				if strings.HasPrefix(n, "builtin ") {
+					continue
+				}
+				pure := false
+				for _, p := range pureCallPrefixes {
+					if strings.HasPrefix(n, p) {
+						pure = true
+					}
+				}
+				if pure || writesOnlyBuffer(com) {
+					continue
+				}
+				cal := com.StaticCallee()
+				switch {
+				case cal != nil && len(cal.Blocks) > 0 && c.inRuleScope(cal):
+					if c.mayWriteField(cal, suffix, seen) {
+						res = true
+					}
+				case cal != nil && !c.inRuleScope(cal):
+					// a library function: writes our struct only through a
+					// pointer, interface, map, func or slice handed to it
+					for _, a := range com.Args {
+						switch a.Type().Underlying().(type) {
+						case *types.Basic:
+						default:
+							if sl, isSl := a.Type().Underlying().(*types.Slice); isSl {
+								if _, basic := sl.Elem().Underlying().(*types.Basic); basic {
+									continue
+								}
+							}
+							res = true
+						}
+					}
+				default:
+					res = true
+				}
+			}
+			if res {
+				break
+			}
+		}
+		if res {
+			break
+		}
+	}
+	if top || res {
+		c.memo[key] = res
+	}
+	return res
 }
 
 func (F *bfn) noKillBetween(first, second ssa.Instruction, key string) bool {
